@@ -172,10 +172,15 @@ pub fn segment() -> BoxedStrategy<Vec<u8>> {
 }
 
 /// Parameter names built to collide: shared prefixes followed by bytes sorting below and above '='.
+pub const AMZ_AUTH_NAMES: &[&str] = &["X-Amz-Algorithm", "X-Amz-Credential", "X-Amz-Date", "X-Amz-SignedHeaders", "X-Amz-Security-Token", "X-Amz-Signature"];
+
 pub fn clustered_name() -> BoxedStrategy<Vec<u8>> {
     const POOL: &[&[u8]] = &[
         b"a", b"a-", b"a.", b"a0", b"a%", b"A", b"", b"a-b", b"a1", b"a!", b"a=", b"a b", b"ab", b"a~", b"b", b"a\x00",
         b"a\xff", b"a&", b"a+", b"a/", b"a;", b"Action", b"Version", b"X-Amz-Meta", b"x", b"a<", b"a>", b"a?",
+        // authentication parameter names: ordinary application parameters when the Authorization header is the carrier
+        // (plan() removes them again for the query carrier, where they would be the carrier's own parameters)
+        b"X-Amz-Date", b"X-Amz-Credential", b"X-Amz-SignedHeaders", b"X-Amz-Security-Token", b"X-Amz-Signature", b"X-Amz-Expires",
     ];
     prop_oneof![
         6 => any::<u16>().prop_map(|x| POOL[pick_idx(x, POOL.len())].to_vec()),
@@ -211,9 +216,9 @@ pub const HEADER_POOL: &[&str] = &[
 /// canonical header value: visible bytes, 0x80-0xFF, tabs, single inner spaces; no outer spaces, no space runs
 pub fn header_value() -> BoxedStrategy<Vec<u8>> {
     let b = prop_oneof![
-        10 => (0x21u8..=0x7e),
+        10 => 0x21u8..=0x7e,
         2 => Just(b' '),
-        1 => (0x80u8..=0xff),
+        1 => 0x80u8..=0xff,
         1 => Just(b'\t'),
         1 => Just(b','),
     ];
@@ -382,7 +387,7 @@ pub fn spelling() -> BoxedStrategy<Spelling> {
         prop_oneof![6 => Just(11u8), 1 => Just(10u8), 1 => Just(2u8), 1 => Just(3u8), 1 => Just(9u8)],
     )
         .prop_map(|(bytes, query_order, amp_padding, drop_eq, header_case, header_pad, header_order, path_noise, version)| {
-            Spelling { bytes, query_order, amp_padding, drop_eq, header_case, header_pad, header_order, path_noise, version, plus_literal: false, absolute_form: if path_noise % 11 == 3 { 1 + path_noise % 3 } else { 0 }, query_tail: if amp_padding % 5 == 1 { amp_padding >> 5 } else { 0 } }
+            Spelling { bytes, query_order, amp_padding, drop_eq, header_case, header_pad, header_order, path_noise, version, plus_literal: false, absolute_form: if path_noise % 11 == 3 { 1 + path_noise % 3 } else if path_noise % 11 == 5 { 4 + path_noise % 4 } else { 0 }, query_tail: if amp_padding % 5 == 1 { amp_padding >> 5 } else { 0 } }
         })
         .boxed()
 }
@@ -493,7 +498,10 @@ pub fn spell(l: &Logical, sp: &Spelling, s3: bool) -> WireRequest {
         0 => uri,
         1 => format!("http://example.amazonaws.com{}", uri),
         2 => format!("https://h.example:8443{}", uri),
-        _ => format!("HTTP://Example.COM{}", uri),
+        3 => format!("HTTP://Example.COM{}", uri),
+        // authority form (the target of a CONNECT): possible only where there is neither a path nor a query
+        _ if uri == "/" => ["example.amazonaws.com:443", "localhost", "10.0.0.1:8080", "h.example:80"][(sp.absolute_form as usize - 4) % 4].to_string(),
+        _ => uri,
     };
     // headers: values of one name keep their order; different names are interleaved
     let mut flat: Vec<(usize, String, B)> = Vec::new();
@@ -643,7 +651,7 @@ pub fn delta_in_window() -> BoxedStrategy<i128> {
     const W: i128 = 900_000_000_000;
     prop_oneof![
         3 => Just(0i128),
-        2 => (-W..=W),
+        2 => -W..=W,
         1 => Just(W),
         1 => Just(-W),
         1 => (0i128..2_000_000_000).prop_map(|x| W - x),
@@ -868,6 +876,11 @@ impl Plan {
                 }
             }
         }
+        if self.spec.carrier == Carrier::Query && self.spelling.absolute_form >= 4 && !(self.spec.auth_in_body && self.cfg.fold && self.form.is_some()) {
+            // an authority-form target cannot carry the query parameters of the query carrier
+            let sp = Spelling { absolute_form: 0, ..self.spelling.clone() };
+            return spell(&l, &sp, self.cfg.s3);
+        }
         spell(&l, &self.spelling, self.cfg.s3)
     }
     pub fn provider(&self) -> ProviderScript {
@@ -900,6 +913,14 @@ pub fn plan(o: PlanOpts) -> BoxedStrategy<Plan> {
     )
         .prop_map(move |((mut logical, spelling, carrier, form), (region, service, inst, style, delta), (s3, fold, reqs), (ak, secret, token, principal, session), (misc, perm, picks))| {
             let s3 = s3 && o.allow_s3 && misc[0] % 3 == 0;
+            let mut form = form;
+            if carrier == Carrier::Query {
+                let own = |n: &B| AMZ_AUTH_NAMES.iter().any(|a| n.0 == a.as_bytes());
+                logical.query.retain(|(n, _)| !own(n));
+                if let Some(f) = form.as_mut() {
+                    f.retain(|(n, _)| !own(n));
+                }
+            }
             // headers the service always requires must exist for the request to be acceptable
             for h in &reqs.always {
                 let l = h.to_lowercase();
